@@ -373,8 +373,10 @@ def parse_positions(linetable: bytes, first_lineno: int):
                 yield (
                     computed_line,
                     computed_line + position_entry.num_lines,
-                    position_entry.column,
-                    position_entry.endcolumn,
+                    position_entry.column if position_entry.column >= 0 else None,
+                    position_entry.endcolumn
+                    if position_entry.endcolumn >= 0
+                    else None,
                 )
 
 
@@ -477,4 +479,4 @@ class Code311(Code310):
         return parse_linetable(self.co_linetable, self.co_firstlineno)
 
     def co_positions(self):
-        return parse_location_entries(self.co_linetable, self.co_firstlineno)
+        return parse_positions(self.co_linetable, self.co_firstlineno)
